@@ -186,6 +186,8 @@ class Network:
             if known:
                 known.addresses.update(peer.addresses)
                 return
+            if any(address in self.blacklist for address in peer.addresses.values()):
+                return
             if any(address in self._all_addresses for address in peer.addresses.values()):
                 if peer not in self.verified_peers:
                     # This should always happen, unless someone edits the verified_peers dict directly.
@@ -193,7 +195,7 @@ class Network:
                     self.verified_peers.add(peer)
                     self.verified_by_public_key_bin[peer.public_key.key_to_bin()] = peer
                     list(map(methodcaller("on_peer_added", peer), self.peer_observers))
-            elif all(address not in self.blacklist for address in peer.addresses.values()):
+            else:
                 for address in peer.addresses.values():
                     if address not in self._all_addresses:
                         self._all_addresses[address] = WalkableAddress(b"", None, False)
